@@ -8,3 +8,7 @@ func verifObj(p any) string                             { return "" }
 func verifSeqs(seqs []SequenceID) [][3]uint64           { return nil }
 func verifSeqSet(m map[SequenceID]struct{}) [][3]uint64 { return nil }
 func verifErr(err error) string                         { return "" }
+func verifBatchID(changeArray [][]any) string           { return "" }
+func verifChangeSeqs(changeArray [][]any) [][3]uint64   { return nil }
+func verifWanted(answer []any, n int) []bool            { return nil }
+func verifCollIdx(idx *int) int                         { return -1 }
